@@ -185,7 +185,7 @@ def random_walk(rng, cap, progs, spurious, cancel, maxlen):
         # weights: polls dominate; close/drop of the receiver are rare
         pool = []
         for l in en:
-            w = {"p": 8, "r": 10, "d": 2, "c": 1, "x": 1}[l[0]]
+            w = {"p": 16, "r": 20, "d": 4, "c": 2, "x": 1}[l[0]]
             if l[0] == "p" and not m.tasks[l[1]]["woken"]:
                 w = 3
             if l[0] == "d" and not m.finished(m.tasks[l[1]]):
